@@ -1,4 +1,726 @@
 import SMD.Model.Updater
 import SMD.Proofs.SetAlgebra
 namespace SMD
+
+/-! ### `liftRes` -/
+
+theorem liftRes_ne_conflict {α β : Type} (r : Res α) (k : α → Outcome β) (c : List (String × Path))
+    (hk : ∀ a, k a ≠ .conflict c) : liftRes r k ≠ .conflict c := by
+  cases r <;> simp [liftRes, hk]
+
+/-! ### "never conflict" lemmas -/
+
+theorem reconcileManaged_ne_conflict (u : Updater) (sc : Schema) (live : TV) (c : List (String × Path)) :
+    ∀ m : Managed, reconcileManaged u sc live m ≠ .conflict c := by
+  intro m
+  induction m with
+  | nil => simp [reconcileManaged]
+  | cons x rest ih =>
+    obtain ⟨k, vs⟩ := x
+    unfold reconcileManaged
+    split
+    · exact ih
+    · simp
+    · split
+      · simp
+      · simp
+      · split
+        · simp
+        · rename_i e hne
+          exact ih
+
+theorem addBackForVersion_ne_conflict (u : Updater) (sc : Schema) (merged pruned : TV) (version : String)
+    (managed : SetTrie) (c : List (String × Path)) :
+    addBackForVersion u sc merged pruned version managed ≠ .conflict c := by
+  unfold addBackForVersion
+  split
+  · simp
+  · simp
+  · split
+    · simp
+    · simp
+    · apply liftRes_ne_conflict; intro a
+      apply liftRes_ne_conflict; intro b
+      simp
+
+theorem addBackOwned_ne_conflict (u : Updater) (sc : Schema) (merged pruned : TV) (prunedVersion : String)
+    (managers : Managed) (c : List (String × Path)) :
+    addBackOwned u sc merged pruned prunedVersion managers ≠ .conflict c := by
+  have hfold : ∀ (l : List (String × SetTrie)) (acc : Outcome (TV × TV)), (∀ c, acc ≠ .conflict c) →
+      ∀ c, l.foldl (fun (acc : Outcome (TV × TV)) (vm : String × SetTrie) =>
+        match acc with
+        | .ok (merged, pruned) => addBackForVersion u sc merged pruned vm.1 vm.2
+        | e => e) acc ≠ .conflict c := by
+    intro l
+    induction l with
+    | nil => intro acc h; simpa using h
+    | cons x rest ih =>
+      intro acc h
+      simp only [List.foldl_cons]
+      apply ih
+      intro c
+      split
+      · exact addBackForVersion_ne_conflict _ _ _ _ _ _ _
+      · exact h c
+  unfold addBackOwned
+  simp only
+  split
+  · simp
+  · rename_i c' hc
+    exfalso
+    revert hc
+    apply hfold
+    intro c
+    split
+    · exact addBackForVersion_ne_conflict _ _ _ _ _ _ _
+    · simp
+  · simp
+  · simp
+
+theorem addBackDangling_ne_conflict (u : Updater) (sc : Schema) (merged pruned : TV) (lastSet : VersionedSet)
+    (c : List (String × Path)) :
+    addBackDangling u sc merged pruned lastSet ≠ .conflict c := by
+  unfold addBackDangling
+  split
+  · simp
+  · simp
+  · apply liftRes_ne_conflict; intro a
+    apply liftRes_ne_conflict; intro b
+    simp
+
+theorem prune_ne_conflict (u : Updater) (sc : Schema) (merged : TV) (managers : Managed) (applyingManager : String)
+    (lastSet : Option VersionedSet) (c : List (String × Path)) :
+    prune u sc merged managers applyingManager lastSet ≠ .conflict c := by
+  unfold prune
+  split
+  · simp
+  · split
+    · simp
+    · split
+      · simp
+      · simp
+      · simp only
+        split
+        · split
+          · split <;> simp
+          · rename_i e hne
+            intro he
+            exact addBackDangling_ne_conflict _ _ _ _ _ _ he
+        · rename_i e hne
+          intro he
+          exact addBackOwned_ne_conflict _ _ _ _ _ _ _ he
+
+theorem updateLoop_ne_conflict (u : Updater) (sc : Schema) (oldObj newObj : TV) (workflow : String)
+    (c : List (String × Path)) :
+    ∀ (l : List (String × VersionedSet)) (managers : Managed) (versions : List (String × Comparison))
+      (conflicts removed : List (String × VersionedSet)),
+      updateLoop u sc oldObj newObj workflow l managers versions conflicts removed ≠ .conflict c := by
+  intro l
+  induction l with
+  | nil => intros; simp [updateLoop]
+  | cons x rest ih =>
+    obtain ⟨manager, ms⟩ := x
+    intro managers versions conflicts removed
+    simp only [updateLoop]
+    split
+    · exact ih _ _ _ _
+    · split
+      · exact ih _ _ _ _
+      · split
+        · exact ih _ _ _ _
+        · simp
+        · split
+          · exact ih _ _ _ _
+          · simp
+          · split
+            · simp
+            · simp
+            · exact ih _ _ _ _
+
+/-- invariant of the recorded conflicts: managers other than the workflow, non-empty sets -/
+def ConflictsOK (workflow : String) (cs : List (String × VersionedSet)) : Prop :=
+  ∀ x ∈ cs, x.1 ≠ workflow ∧ x.2.set.isEmpty = false
+
+theorem updateLoop_conflictsOK (u : Updater) (sc : Schema) (oldObj newObj : TV) (workflow : String) :
+    ∀ (l : List (String × VersionedSet)) (managers : Managed) (versions : List (String × Comparison))
+      (conflicts removed : List (String × VersionedSet)) (ms : Managed) (cs rs : List (String × VersionedSet)),
+      updateLoop u sc oldObj newObj workflow l managers versions conflicts removed = .ok (ms, cs, rs) →
+      ConflictsOK workflow conflicts → ConflictsOK workflow cs := by
+  intro l
+  induction l with
+  | nil =>
+    intro managers versions conflicts removed ms cs rs h hc
+    simp only [updateLoop, Outcome.ok.injEq, Prod.mk.injEq] at h
+    obtain ⟨-, rfl, -⟩ := h
+    intro x hx
+    exact hc x (by simpa using hx)
+  | cons x rest ih =>
+    obtain ⟨manager, ms⟩ := x
+    intro managers versions conflicts removed ms' cs rs
+    simp only [updateLoop]
+    have hstep : ∀ (s : SetTrie), manager ≠ workflow → ConflictsOK workflow conflicts →
+        ConflictsOK workflow (if (!s.isEmpty) = true then (manager, ⟨s, ms.version, false⟩) :: conflicts else conflicts) := by
+      intro s hm hc
+      split
+      · rename_i hs
+        intro x hx
+        rcases List.mem_cons.1 hx with rfl | hx
+        · exact ⟨hm, by simpa using hs⟩
+        · exact hc x hx
+      · exact hc
+    split
+    · exact ih _ _ _ _ _ _ _
+    · rename_i hmw
+      have hmw' : manager ≠ workflow := by simpa using hmw
+      split
+      · intro h hc; exact ih _ _ _ _ _ _ _ h (hstep _ hmw' hc)
+      · split
+        · exact ih _ _ _ _ _ _ _
+        · simp
+        · split
+          · exact ih _ _ _ _ _ _ _
+          · simp
+          · split
+            · simp
+            · simp
+            · intro h hc; exact ih _ _ _ _ _ _ _ h (hstep _ hmw' hc)
+
+theorem conflictsOf_ne_nil {workflow : String} {cs : List (String × VersionedSet)}
+    (h : ConflictsOK workflow cs) (hne : cs ≠ []) : conflictsOf cs ≠ [] := by
+  cases cs with
+  | nil => exact absurd rfl hne
+  | cons x rest =>
+    obtain ⟨m, vs⟩ := x
+    have hx := (h (m, vs) (List.mem_cons_self ..)).2
+    have hp : vs.set.paths ≠ [] := by
+      intro hp
+      rw [← SetTrie.isEmpty_iff_paths] at hp
+      simp [hp] at hx
+    cases hq : vs.set.paths with
+    | nil => exact absurd hq hp
+    | cons q qs => simp [conflictsOf, hq]
+
+theorem conflictsOf_mem {workflow : String} {cs : List (String × VersionedSet)}
+    (h : ConflictsOK workflow cs) (x : String × Path) (hx : x ∈ conflictsOf cs) : x.1 ≠ workflow := by
+  simp only [conflictsOf, List.mem_flatMap, List.mem_map] at hx
+  obtain ⟨y, hy, p, -, rfl⟩ := hx
+  exact (h y hy).1
+
+theorem updateCore_true_ne_conflict (u : Updater) (sc : Schema) (oldObj newObj : TV) (version : String)
+    (managers : Managed) (workflow : String) (c : List (String × Path)) :
+    updateCore u sc oldObj newObj version managers workflow true ≠ .conflict c := by
+  unfold updateCore
+  split
+  · simp
+  · simp
+  · simp only
+    split
+    · simp
+    · rename_i c' hc
+      exact absurd hc (updateLoop_ne_conflict _ _ _ _ _ _ _ _ _ _ _)
+    · simp
+    · simp
+
+theorem updateCore_false_ok (u : Updater) (sc : Schema) (oldObj newObj : TV) (version : String)
+    (managers : Managed) (workflow : String) (r : Managed × Comparison) :
+    updateCore u sc oldObj newObj version managers workflow false = .ok r →
+      updateCore u sc oldObj newObj version managers workflow true = .ok r := by
+  unfold updateCore
+  split
+  · simp
+  · simp
+  · simp only
+    split
+    · rename_i ms cs rs hl
+      cases cs <;> simp
+    · simp
+    · simp
+    · simp
+
+theorem updateCore_false_conflict (u : Updater) (sc : Schema) (oldObj newObj : TV) (version : String)
+    (managers : Managed) (workflow : String) (c : List (String × Path)) :
+    updateCore u sc oldObj newObj version managers workflow false = .conflict c →
+      c ≠ [] ∧ (∀ x ∈ c, x.1 ≠ workflow) ∧
+        ∃ r, updateCore u sc oldObj newObj version managers workflow true = .ok r := by
+  unfold updateCore
+  split
+  · simp
+  · simp
+  · simp only
+    split
+    · rename_i ms cs rs hl
+      have hok : ConflictsOK workflow cs :=
+        updateLoop_conflictsOK _ _ _ _ _ _ _ _ _ _ _ _ _ hl (by intro x hx; cases hx)
+      cases cs with
+      | nil => simp
+      | cons y ys =>
+        simp only [Bool.not_false, List.isEmpty_cons, Bool.and_self, ↓reduceIte, Outcome.conflict.injEq,
+          Bool.not_true, Bool.false_and, Bool.false_eq_true]
+        rintro rfl
+        exact ⟨conflictsOf_ne_nil hok (by simp), conflictsOf_mem hok, _, rfl⟩
+    · rename_i c' hc
+      exact absurd hc (updateLoop_ne_conflict _ _ _ _ _ _ _ _ _ _ _)
+    · simp
+    · simp
+
+theorem updateCore_true_ok (u : Updater) (sc : Schema) (oldObj newObj : TV) (version : String)
+    (managers : Managed) (workflow : String) (r : Managed × Comparison) :
+    updateCore u sc oldObj newObj version managers workflow true = .ok r →
+      updateCore u sc oldObj newObj version managers workflow false = .ok r ∨
+      ∃ c, c ≠ [] ∧ updateCore u sc oldObj newObj version managers workflow false = .conflict c := by
+  unfold updateCore
+  split
+  · simp
+  · simp
+  · simp only
+    split
+    · rename_i ms cs rs hl
+      have hok : ConflictsOK workflow cs :=
+        updateLoop_conflictsOK _ _ _ _ _ _ _ _ _ _ _ _ _ hl (by intro x hx; cases hx)
+      cases cs with
+      | nil => simp
+      | cons y ys =>
+        simp only [Bool.not_false, List.isEmpty_cons, Bool.and_self, ↓reduceIte, Outcome.conflict.injEq,
+          Bool.not_true, Bool.false_and, Bool.false_eq_true]
+        intro _
+        exact Or.inr ⟨_, conflictsOf_ne_nil hok (by simp), rfl⟩
+    · simp
+    · simp
+    · simp
+
+/-! ### decomposition of `apply` -/
+
+/-- everything `apply` does before calling `updateCore`: the merged and pruned object and the
+managed fields with the applier's new set recorded -/
+def applyPre (u : Updater) (sc : Schema) (live config : TV) (version : String) (managers : Managed)
+    (manager : String) : Outcome (TV × Managed) :=
+  match reconcileManaged u sc live managers with
+  | .ok managers =>
+    liftRes (mergeTV sc live config) fun newObject =>
+    liftRes (toFieldSet sc config) fun set =>
+    let managers' := mfSet managers manager ⟨applyIgnore u version set, version, true⟩
+    (match prune u sc newObject managers' manager (mfGet managers manager) with
+     | .ok newObject => .ok (newObject, managers')
+     | .conflict c => .conflict c
+     | .err => .err
+     | .panic => .panic)
+  | .conflict c => .conflict c
+  | .err => .err
+  | .panic => .panic
+
+/-- the last step of `apply` -/
+def applyFinish (noop : Bool) (live newObject : TV) : Outcome (Managed × Comparison) → Outcome (Option TV × Managed)
+  | .ok (managers, _) =>
+    if !noop && Value.equals live.value newObject.value then .ok (none, managers)
+    else .ok (some newObject, managers)
+  | .conflict c => .conflict c
+  | .err => .err
+  | .panic => .panic
+
+theorem apply_eq (u : Updater) (sc : Schema) (live config : TV) (version : String) (managers : Managed)
+    (manager : String) (force : Bool) :
+    apply u sc live config version managers manager force =
+      match applyPre u sc live config version managers manager with
+      | .ok (newObject, managers') =>
+        applyFinish u.returnInputOnNoop live newObject
+          (updateCore u sc live newObject version managers' manager force)
+      | .conflict c => .conflict c
+      | .err => .err
+      | .panic => .panic := by
+  unfold apply applyPre
+  cases reconcileManaged u sc live managers with
+  | ok ms =>
+    simp only
+    cases mergeTV sc live config with
+    | ok newObject =>
+      simp only [liftRes]
+      cases toFieldSet sc config with
+      | ok set =>
+        simp only
+        cases prune u sc newObject (mfSet ms manager ⟨applyIgnore u version set, version, true⟩) manager
+          (mfGet ms manager) with
+        | ok obj =>
+          simp only
+          cases updateCore u sc live obj version (mfSet ms manager ⟨applyIgnore u version set, version, true⟩)
+            manager force with
+          | ok r => rfl
+          | _ => rfl
+        | _ => rfl
+      | _ => rfl
+    | _ => rfl
+  | _ => rfl
+
+theorem applyPre_ne_conflict (u : Updater) (sc : Schema) (live config : TV) (version : String) (managers : Managed)
+    (manager : String) (c : List (String × Path)) :
+    applyPre u sc live config version managers manager ≠ .conflict c := by
+  unfold applyPre
+  split
+  · apply liftRes_ne_conflict; intro a
+    apply liftRes_ne_conflict; intro b
+    simp only
+    split
+    · simp
+    · rename_i c' hc
+      exact absurd hc (prune_ne_conflict _ _ _ _ _ _ _)
+    · simp
+    · simp
+  · rename_i c' hc
+    exact absurd hc (reconcileManaged_ne_conflict _ _ _ _ _)
+  · simp
+  · simp
+
+theorem applyFinish_ok (noop : Bool) (live obj : TV) (ms : Managed) (cmp : Comparison) :
+    applyFinish noop live obj (.ok (ms, cmp)) =
+      .ok (if !noop && Value.equals live.value obj.value then none else some obj, ms) := by
+  simp only [applyFinish]
+  split <;> rfl
+
+theorem applyFinish_eq_ok {noop : Bool} {live obj : TV} {o : Outcome (Managed × Comparison)}
+    {r : Option TV × Managed} (h : applyFinish noop live obj o = .ok r) :
+    ∃ ms cmp, o = .ok (ms, cmp) ∧
+      r = (if !noop && Value.equals live.value obj.value then none else some obj, ms) := by
+  cases o with
+  | ok a =>
+    obtain ⟨ms, cmp⟩ := a
+    refine ⟨ms, cmp, rfl, ?_⟩
+    rw [applyFinish_ok] at h
+    exact (Outcome.ok.inj h).symm
+  | _ => simp [applyFinish] at h
+
+theorem applyFinish_eq_conflict {noop : Bool} {live obj : TV} {o : Outcome (Managed × Comparison)}
+    {c : List (String × Path)} : applyFinish noop live obj o = .conflict c ↔ o = .conflict c := by
+  cases o with
+  | ok a =>
+    obtain ⟨ms, cmp⟩ := a
+    simp only [applyFinish]
+    split <;> simp
+  | _ => simp [applyFinish]
+
+
+/-! ### C04: conflicts and `force` -/
+
+theorem apply_force_ne_conflict (u : Updater) (sc : Schema) (live cfg : TV) (ver : String) (m : Managed)
+    (mgr : String) (c : List (String × Path)) :
+    apply u sc live cfg ver m mgr true ≠ .conflict c := by
+  rw [apply_eq]
+  split
+  · rw [Ne, applyFinish_eq_conflict]
+    exact updateCore_true_ne_conflict _ _ _ _ _ _ _ _
+  · rename_i c' hc
+    exact absurd hc (applyPre_ne_conflict _ _ _ _ _ _ _ _)
+  · simp
+  · simp
+
+theorem apply_unforced_ok (u : Updater) (sc : Schema) (live cfg : TV) (ver : String) (m : Managed)
+    (mgr : String) (r : Option TV × Managed) :
+    apply u sc live cfg ver m mgr false = .ok r → apply u sc live cfg ver m mgr true = .ok r := by
+  rw [apply_eq, apply_eq]
+  split
+  · intro h
+    obtain ⟨ms, cmp, ho, rfl⟩ := applyFinish_eq_ok h
+    rw [updateCore_false_ok _ _ _ _ _ _ _ _ ho, applyFinish_ok]
+  · simp
+  · simp
+  · simp
+
+theorem apply_unforced_conflict (u : Updater) (sc : Schema) (live cfg : TV) (ver : String) (m : Managed)
+    (mgr : String) (c : List (String × Path)) :
+    apply u sc live cfg ver m mgr false = .conflict c →
+      c ≠ [] ∧ (∀ x ∈ c, x.1 ≠ mgr) ∧ ∃ r, apply u sc live cfg ver m mgr true = .ok r := by
+  rw [apply_eq, apply_eq]
+  split
+  · rw [applyFinish_eq_conflict]
+    intro h
+    obtain ⟨hne, hmem, ⟨ms, cmp⟩, hr⟩ := updateCore_false_conflict _ _ _ _ _ _ _ _ h
+    exact ⟨hne, hmem, _, by rw [hr, applyFinish_ok]⟩
+  · rename_i c' hc
+    exact absurd hc (applyPre_ne_conflict _ _ _ _ _ _ _ _)
+  · simp
+  · simp
+
+theorem apply_forced_ok (u : Updater) (sc : Schema) (live cfg : TV) (ver : String) (m : Managed)
+    (mgr : String) (r : Option TV × Managed) :
+    apply u sc live cfg ver m mgr true = .ok r →
+      apply u sc live cfg ver m mgr false = .ok r ∨
+      ∃ c, c ≠ [] ∧ apply u sc live cfg ver m mgr false = .conflict c := by
+  rw [apply_eq, apply_eq]
+  split
+  · intro h
+    obtain ⟨ms, cmp, ho, rfl⟩ := applyFinish_eq_ok h
+    rcases updateCore_true_ok _ _ _ _ _ _ _ _ ho with h' | ⟨c, hne, h'⟩
+    · left; rw [h', applyFinish_ok]
+    · right; exact ⟨c, hne, by rw [h']; rfl⟩
+  · simp
+  · simp
+  · simp
+
+theorem update_ne_conflict (u : Updater) (sc : Schema) (live newObj : TV) (ver : String) (m : Managed)
+    (mgr : String) (c : List (String × Path)) :
+    update u sc live newObj ver m mgr ≠ .conflict c := by
+  unfold update
+  split
+  · split
+    · simp only
+      split <;> simp
+    · rename_i c' hc
+      exact absurd hc (updateCore_true_ne_conflict _ _ _ _ _ _ _ _)
+    · simp
+    · simp
+  · rename_i c' hc
+    exact absurd hc (reconcileManaged_ne_conflict _ _ _ _ _)
+  · simp
+  · simp
+
+/-! ### C07: the functions use only the converter and the ignore configuration of the updater -/
+
+section congr
+variable {u u' : Updater} (hc : u.converter = u'.converter) (hi : u.ignore = u'.ignore)
+include hc
+
+theorem reconcileManaged_congr : reconcileManaged u = reconcileManaged u' := by
+  funext sc live m
+  induction m with
+  | nil => simp only [reconcileManaged]
+  | cons x rest ih =>
+    obtain ⟨k, vs⟩ := x
+    simp only [reconcileManaged, hc, ih]
+
+theorem addBackForVersion_congr : addBackForVersion u = addBackForVersion u' := by
+  funext sc merged pruned version managed
+  simp only [addBackForVersion, hc]
+
+theorem addBackOwned_congr : addBackOwned u = addBackOwned u' := by
+  funext sc merged pruned version managers
+  simp only [addBackOwned, addBackForVersion_congr hc]
+
+theorem addBackDangling_congr : addBackDangling u = addBackDangling u' := by
+  funext sc merged pruned last
+  simp only [addBackDangling, hc]
+
+theorem prune_congr : prune u = prune u' := by
+  funext sc merged managers mgr last
+  simp only [prune, hc, addBackOwned_congr hc, addBackDangling_congr hc]
+
+include hi
+
+omit hc in
+theorem applyIgnore_congr : applyIgnore u = applyIgnore u' := by
+  funext v s
+  simp only [applyIgnore, hi]
+
+theorem updateLoop_congr : updateLoop u = updateLoop u' := by
+  funext sc oldObj newObj workflow l
+  induction l with
+  | nil => funext managers versions conflicts removed; simp only [updateLoop]
+  | cons x rest ih =>
+    obtain ⟨manager, ms⟩ := x
+    funext managers versions conflicts removed
+    simp only [updateLoop, hc, hi, ih]
+
+theorem updateCore_congr : updateCore u = updateCore u' := by
+  funext sc oldObj newObj version managers workflow force
+  simp only [updateCore, hi, updateLoop_congr hc hi]
+
+theorem applyPre_congr : applyPre u = applyPre u' := by
+  funext sc live config version managers manager
+  simp only [applyPre, reconcileManaged_congr hc, prune_congr hc, applyIgnore_congr hi]
+
+/-- `apply` of an updater `u'` with the same converter and ignore configuration as `u`, in terms of
+the pieces computed with `u` -/
+theorem apply_eq_of_same (sc : Schema) (live config : TV) (version : String) (managers : Managed)
+    (manager : String) (force : Bool) :
+    apply u' sc live config version managers manager force =
+      match applyPre u sc live config version managers manager with
+      | .ok (newObject, managers') =>
+        applyFinish u'.returnInputOnNoop live newObject
+          (updateCore u sc live newObject version managers' manager force)
+      | .conflict c => .conflict c
+      | .err => .err
+      | .panic => .panic := by
+  rw [apply_eq, applyPre_congr hc hi, updateCore_congr hc hi]
+
+omit hc hi in
+theorem apply_noop_isSome (hn : u'.returnInputOnNoop = true) (sc : Schema) (live cfg : TV) (ver : String)
+    (m : Managed) (mgr : String) (force : Bool) (o : Option TV) (mf : Managed) :
+    apply u' sc live cfg ver m mgr force = .ok (o, mf) → o.isSome = true := by
+  rw [apply_eq]
+  split
+  · intro h
+    obtain ⟨ms, cmp, -, hr⟩ := applyFinish_eq_ok h
+    simp only [hn, Bool.not_true, Bool.false_and, Bool.false_eq_true, ↓reduceIte, Prod.mk.injEq] at hr
+    simp [hr.1]
+  · simp
+  · simp
+  · simp
+
+theorem apply_noop_signal (hn : u'.returnInputOnNoop = true) (h : u.returnInputOnNoop = false)
+    (sc : Schema) (live cfg : TV) (ver : String) (m : Managed) (mgr : String) (force : Bool)
+    (res : TV) (mf : Managed) :
+    apply u' sc live cfg ver m mgr force = .ok (some res, mf) →
+      apply u sc live cfg ver m mgr force =
+        .ok (if Value.equals live.value res.value then none else some res, mf) := by
+  rw [apply_eq_of_same hc hi, apply_eq]
+  split
+  · intro h'
+    obtain ⟨ms, cmp, ho, hr⟩ := applyFinish_eq_ok h'
+    simp only [hn, Bool.not_true, Bool.false_and, Bool.false_eq_true, ↓reduceIte, Prod.mk.injEq,
+      Option.some.injEq] at hr
+    obtain ⟨rfl, rfl⟩ := hr
+    rw [ho, applyFinish_ok, h]
+    simp
+  · simp
+  · simp
+  · simp
+
+theorem apply_noop_signal_conv (hn : u'.returnInputOnNoop = true) (h : u.returnInputOnNoop = false)
+    (sc : Schema) (live cfg : TV) (ver : String) (m : Managed) (mgr : String) (force : Bool)
+    (o : Option TV) (mf : Managed) :
+    apply u sc live cfg ver m mgr force = .ok (o, mf) →
+      ∃ res, apply u' sc live cfg ver m mgr force = .ok (some res, mf) ∧
+        o = (if Value.equals live.value res.value then none else some res) := by
+  rw [apply_eq_of_same hc hi, apply_eq]
+  split
+  · rename_i obj ms' _
+    intro h'
+    obtain ⟨ms, cmp, ho, hr⟩ := applyFinish_eq_ok h'
+    simp only [h, Bool.not_false, Bool.true_and, Prod.mk.injEq] at hr
+    obtain ⟨rfl, rfl⟩ := hr
+    refine ⟨obj, ?_, rfl⟩
+    rw [ho, applyFinish_ok, hn]
+    simp
+  · simp
+  · simp
+  · simp
+
+theorem apply_conflict_iff_of_same (sc : Schema) (live cfg : TV) (ver : String) (m : Managed) (mgr : String)
+    (force : Bool) (c : List (String × Path)) :
+    apply u sc live cfg ver m mgr force = .conflict c ↔
+      apply u' sc live cfg ver m mgr force = .conflict c := by
+  rw [apply_eq_of_same hc hi, apply_eq]
+  split
+  · rw [applyFinish_eq_conflict, applyFinish_eq_conflict]
+  · exact Iff.rfl
+  · exact Iff.rfl
+  · exact Iff.rfl
+
+end congr
+
+/-! ### C08: failing conversions surface -/
+
+theorem reconcileManaged_fails (u : Updater) (sc : Schema) (live : TV) (k : String) (vs : VersionedSet)
+    (hf : ∀ tv, u.converter.convert tv vs.version = .fail) :
+    ∀ m : Managed, (k, vs) ∈ m →
+      reconcileManaged u sc live m = .err ∨ reconcileManaged u sc live m = .panic := by
+  intro m
+  induction m with
+  | nil => intro h; cases h
+  | cons x rest ih =>
+    obtain ⟨k', vs'⟩ := x
+    intro hmem
+    rcases List.mem_cons.1 hmem with heq | hmem
+    · cases heq
+      simp [reconcileManaged, hf]
+    · have ih := ih hmem
+      unfold reconcileManaged
+      split
+      · exact ih
+      · simp
+      · split
+        · simp
+        · simp
+        · rcases ih with ih | ih <;> simp [ih]
+
+theorem apply_of_reconcile_err_or_panic {u : Updater} {sc : Schema} {live : TV} {m : Managed}
+    (h : reconcileManaged u sc live m = .err ∨ reconcileManaged u sc live m = .panic)
+    (cfg : TV) (ver mgr : String) (force : Bool) :
+    apply u sc live cfg ver m mgr force = .err ∨ apply u sc live cfg ver m mgr force = .panic := by
+  unfold apply
+  rcases h with h | h <;> simp [h]
+
+theorem update_of_reconcile_err_or_panic {u : Updater} {sc : Schema} {live : TV} {m : Managed}
+    (h : reconcileManaged u sc live m = .err ∨ reconcileManaged u sc live m = .panic)
+    (newObj : TV) (ver mgr : String) :
+    update u sc live newObj ver m mgr = .err ∨ update u sc live newObj ver m mgr = .panic := by
+  unfold update
+  rcases h with h | h <;> simp [h]
+
+theorem prune_fails (u : Updater) (sc : Schema) (merged : TV) (m : Managed) (mgr : String)
+    (last : VersionedSet) (hne : last.set.isEmpty = false)
+    (hf : ∀ tv, u.converter.convert tv last.version = .fail) :
+    prune u sc merged m mgr (some last) = .err := by
+  simp [prune, hne, hf]
+
+/-! ### C20: records at missing versions are transparent -/
+
+theorem reconcileManaged_versions (u : Updater) (sc : Schema) (live : TV) (v : String)
+    (hm : ∀ tv, u.converter.convert tv v = .missing) :
+    ∀ m m' : Managed, reconcileManaged u sc live m = .ok m' → ∀ x, x ∈ m' → x.2.version ≠ v := by
+  intro m
+  induction m with
+  | nil =>
+    intro m' h x hx
+    simp only [reconcileManaged, Outcome.ok.injEq] at h
+    subst h; cases hx
+  | cons y rest ih =>
+    obtain ⟨k, vs⟩ := y
+    intro m'
+    unfold reconcileManaged
+    split
+    · exact ih m'
+    · simp
+    · rename_i tv hconv
+      have hv : vs.version ≠ v := by
+        intro hv
+        rw [hv, hm] at hconv
+        cases hconv
+      split
+      · simp
+      · simp
+      · split
+        · rename_i tail htail
+          simp only [Outcome.ok.injEq]
+          rintro rfl x hx
+          rcases List.mem_cons.1 hx with rfl | hx
+          · simp only
+            split <;> exact hv
+          · exact ih tail htail x hx
+        · rename_i e hne
+          intro h
+          exact absurd h (hne _)
+
+theorem reconcileManaged_filter_missing (u : Updater) (sc : Schema) (live : TV) (v : String)
+    (hm : ∀ tv, u.converter.convert tv v = .missing) :
+    ∀ m : Managed, reconcileManaged u sc live m =
+      reconcileManaged u sc live (m.filter (fun x => x.2.version != v)) := by
+  intro m
+  induction m with
+  | nil => rfl
+  | cons y rest ih =>
+    obtain ⟨k, vs⟩ := y
+    by_cases hv : vs.version = v
+    · have : ((k, vs) :: rest).filter (fun x => x.2.version != v) = rest.filter (fun x => x.2.version != v) := by
+        simp [hv]
+      rw [this, ← ih]
+      simp [reconcileManaged, hv, hm]
+    · have : ((k, vs) :: rest).filter (fun x => x.2.version != v) =
+          (k, vs) :: rest.filter (fun x => x.2.version != v) := by
+        simp [hv]
+      rw [this]
+      simp only [reconcileManaged, ih]
+
+theorem apply_congr_reconcile {u : Updater} {sc : Schema} {live : TV} {m m₂ : Managed}
+    (h : reconcileManaged u sc live m = reconcileManaged u sc live m₂)
+    (cfg : TV) (ver mgr : String) (force : Bool) :
+    apply u sc live cfg ver m mgr force = apply u sc live cfg ver m₂ mgr force := by
+  unfold apply
+  rw [h]
+
+theorem update_congr_reconcile {u : Updater} {sc : Schema} {live : TV} {m m₂ : Managed}
+    (h : reconcileManaged u sc live m = reconcileManaged u sc live m₂)
+    (newObj : TV) (ver mgr : String) :
+    update u sc live newObj ver m mgr = update u sc live newObj ver m₂ mgr := by
+  unfold update
+  rw [h]
+
 end SMD
+
